@@ -40,7 +40,7 @@ func main() {
 	}
 	defer os.RemoveAll(root)
 
-	plans := r.Pick(48, 1000)
+	plans := r.Pick(48, 2000)
 	vf.Parallel(plans, 12, func(i int) {
 		if r.Violations() > 10 {
 			return
@@ -52,7 +52,7 @@ func main() {
 
 	// --- race leg
 	if _, err := os.Stat(raceBin); err == nil {
-		racePlans := r.Pick(6, 60)
+		racePlans := r.Pick(6, 100)
 		vf.Parallel(racePlans, 6, func(i int) {
 			if r.Violations() > 10 {
 				return
